@@ -29,7 +29,7 @@ def deps_of(ref, i):
     return ([fp.sel] if fp.sel is not None else []) + list(fp.hard) + list(fp.soft)
 
 def gen(rng, tier, dist):
-    n = 110 if tier == "quick" else 2500
+    n = 300 if tier == "quick" else 4000
     out = []
     for c in range(n):
         opts = {"p_soft": 0.3 if rng.random() < 0.3 else 0.0, "p_sel": 0.8, "p_ptr": 0.7}
